@@ -518,7 +518,7 @@ func headPropagation(c *Ctx, rule string, r *mapRoles) {
 			c.Decide(rule, fn, "unlink-result->head", call, ok, detail)
 		}
 	}
-	c.R.Floor(rule, 3)
+	c.floorThroughHelpersFA10(rule, 3, r) // x_fa10_w.go: direct call sites, else routines that unlink through a helper
 }
 
 func runC10(c *Ctx) {
@@ -698,27 +698,27 @@ func mapRules(c *Ctx, pfx string) {
 		fn := r.next
 		incs, decs := 0, 0
 		ir.Instrs(fn, func(in ssa.Instruction) {
-			if _, ok := r.refDelta(in, 1); ok {
+			if _, ok := r.refDeltaDeep(in, 1); ok {
 				incs++
 				c.NoPath(pfx+"5", "ref+1 preceded by ref-1", in, ir.Query{Fn: fn,
-					Block:  func(x ssa.Instruction) bool { _, ok := r.refDelta(x, -1); return ok },
+					Block:  func(x ssa.Instruction) bool { _, ok := r.refDeltaDeep(x, -1); return ok },
 					Target: func(x ssa.Instruction) bool { return x == in }},
 					"the cursor moves to the next node without giving up the reference on the previous one")
 			}
-			if _, ok := r.refDelta(in, -1); ok {
+			if _, ok := r.refDeltaDeep(in, -1); ok {
 				decs++
 			}
 		})
 		// every path from a -1 to an exit or to the next -1 passes a +1 (the new cursor is referenced)
 		ir.Instrs(fn, func(in ssa.Instruction) {
-			if _, ok := r.refDelta(in, -1); ok {
+			if _, ok := r.refDeltaDeep(in, -1); ok {
 				c.NoPath(pfx+"5", "ref-1 followed by ref+1", in, ir.Query{Fn: fn, From: in,
-					Block: func(x ssa.Instruction) bool { _, ok := r.refDelta(x, 1); return ok },
+					Block: func(x ssa.Instruction) bool { _, ok := r.refDeltaDeep(x, 1); return ok },
 					Target: func(x ssa.Instruction) bool {
 						if ir.IsExit(x) {
 							return true
 						}
-						_, ok := r.refDelta(x, -1)
+						_, ok := r.refDeltaDeep(x, -1)
 						return ok
 					}},
 					"the cursor gives up its reference and the node it moves to is not referenced")
@@ -726,12 +726,12 @@ func mapRules(c *Ctx, pfx string) {
 		})
 		// between two references taken there is always one given back
 		ir.Instrs(fn, func(in ssa.Instruction) {
-			if _, ok := r.refDelta(in, 1); !ok {
+			if _, ok := r.refDeltaDeep(in, 1); !ok {
 				return
 			}
 			c.NoPath(pfx+"5", "ref+1 to ref+1 passes ref-1", in, ir.Query{Fn: fn, From: in,
-				Block:  func(x ssa.Instruction) bool { _, ok := r.refDelta(x, -1); return ok },
-				Target: func(x ssa.Instruction) bool { _, ok := r.refDelta(x, 1); return ok }},
+				Block:  func(x ssa.Instruction) bool { _, ok := r.refDeltaDeep(x, -1); return ok },
+				Target: func(x ssa.Instruction) bool { _, ok := r.refDeltaDeep(x, 1); return ok }},
 				"the cursor takes a reference on a further node without giving back the one it held on the node it leaves: that node keeps a phantom reference and is never unlinked")
 		})
 		if incs == 0 || decs == 0 {
